@@ -184,6 +184,43 @@ theorem C11_frames_noshift (token2id : List (Tok × Int)) (id2token : List (Int 
   have nb : (b == -1) = false := by rw [beq_eq_false_iff_ne]; omega
   simp [rowOf, lookupId, h1, Except.map, backOf, h2, toFrames, ta, tb, na, nb]
 
+/-- **C11_frames_unk**: the ids `transcript_to_token` writes are the documented ones (`specId`) for EVERY
+`token2id` / `unk` setting — no vocabulary ("`unk` has no effect"), an EMPTY vocabulary (every token unknown),
+`unk` a key of `token2id`, `unk` already an id (`0` included), no `unk` (the token itself) — and the times are
+those of `toFrames`; resolving `unk` once before the loop (as the code does) is the same as the per-token rule.
+A string that ends up as an id is refused (`badId`). -/
+theorem C11_frames_unk (token2id : Option (List (Tok × Int))) (unk : Option Tok) (f : Option Rat) (t : List TElem) :
+    transcriptToToken token2id f unk t =
+      t.mapM (fun x => match x with
+        | .plain tk => (idOfTok (specId token2id unk tk)).map (fun id => (id, -1, -1))
+        | .timed tk s e => (idOfTok (specId token2id unk tk)).map
+            (fun id => (id, (toFrames f s e).1, (toFrames f s e).2))) := by
+  have key : ∀ tk, lookupId token2id (resolveUnk token2id unk) tk = idOfTok (specId token2id unk tk) := by
+    intro tk
+    unfold lookupId resolveUnk specId
+    cases token2id with
+    | none => cases tk <;> rfl
+    | some m =>
+      cases unk with
+      | none =>
+        simp only
+        cases h1 : List.lookup tk m <;> cases tk <;> rfl
+      | some u =>
+        simp only
+        cases h1 : List.lookup tk m <;> cases h2 : List.lookup u m <;> cases u <;> rfl
+  unfold transcriptToToken
+  congr 1
+  funext x
+  cases x <;> simp [rowOf, key]
+
+/-- Falsy but legal settings: an empty vocabulary with `unk = 0` maps every token to id 0; without a vocabulary
+`unk` has no effect; `""` is a key like any other. -/
+example : transcriptToToken (some []) none (some (.i 0)) [.plain (.s "a"), .plain (.i 7)]
+    = .ok [(0, -1, -1), (0, -1, -1)] := by decide +kernel
+example : transcriptToToken none none (some (.i 0)) [.plain (.i 7)] = .ok [(7, -1, -1)] := by decide +kernel
+example : transcriptToToken (some [(.s "", 0), (.s "u", 5)]) none (some (.s "u")) [.plain (.s ""), .plain (.s "zz")]
+    = .ok [(0, -1, -1), (5, -1, -1)] := by decide +kernel
+
 /-! ## ctm -/
 
 /-- **C11_ctm**: for every collection of utterances with distinct ids, every mapping
@@ -459,6 +496,89 @@ theorem C11_textgrid (t : List Timed) (o : TgWriteOpts)
         rw [hpt h x hx]
     rw [hval]; exact ⟨e1, e2⟩
   · simp only [c, Bool.false_eq_true, if_false]; exact ⟨e1, e2⟩
+
+/-- `fill_token=""` (Praat's own label for an unlabelled stretch) is a fill token like any other
+(`C11_textgrid_fill` quantifies over every string): the tier named `""` read with it is tiled from xmin to xmax. -/
+example : readTextGrid .byStart ⟨⟨0, 0⟩, ⟨3, 0⟩, "", ⟨0, 0⟩, ⟨3, 0⟩, .intervals [(⟨1, 0⟩, ⟨2, 0⟩, "a")]⟩ (.name "") (some "")
+    = .ok ([("", 0, 1), ("a", 1, 2), ("", 2, 3)], 0, 3) := by decide +kernel
+
+/-- **C11_textgrid_point_rule**: the inference rule of `write_textgrid` — a tier is written as points when
+every segment's start and end print identically AT THE PRINT PRECISION — is exactly the condition under which
+a point tier reads back what an interval tier would have read back: nothing is lost by dropping the end times
+iff the rule holds (for every precision and transcript). -/
+theorem C11_textgrid_point_rule (p : Nat) (t : List Timed) :
+    inferPointAt p t = true ↔ ∀ x ∈ t, readBack p true x = readBack p false x := by
+  simp only [inferPointAt, List.all_eq_true, beq_iff_eq, readBack, if_true, Bool.false_eq_true, if_false]
+  constructor
+  · intro h x hx
+    rw [h x hx]
+  · intro h x hx
+    have := h x hx
+    simp only [Prod.mk.injEq, true_and] at this
+    exact fmt_val_inj p this
+
+/-- **C11_textgrid_inferred**: the round trip, end to end, with the tier type NOT taken as given: for every
+precision, tier name, admissible `start_time`/`end_time` and every `point_tier` setting — left unset (the tier
+type is then whatever the inference rule at the print precision says), `False`, or `True` on zero-length
+segments — `write_textgrid` succeeds and `read_textgrid` returns as many entries, in order, with the same
+tokens, every start AND every end within `½·10⁻ᵖ` of what was written, and tier bounds within `½·10⁻ᵖ` of the
+minimum start / maximum end. -/
+theorem C11_textgrid_inferred (t : List Timed) (o : TgWriteOpts) (tier : TierId)
+    (hne : t ≠ [])
+    (hsorted : t.Pairwise (fun a b => a.2.1 ≤ b.2.1))
+    (hpt : o.pointTier = some true → ∀ x ∈ t, x.2.1 = x.2.2)
+    (hst : ∀ s, o.startTime = some s → s ≤ minList (t.map (·.2.1)))
+    (hen : ∀ e, o.endTime = some e → maxList (t.map (·.2.2)) ≤ e)
+    (htier : tier = .idx 0 ∨ tier = .idx (-1) ∨ tier = .name o.tierName) :
+    ∃ f r a b, writeTextGridInferAt o.precision t o = .ok f ∧ writeTextGrid t o = .ok f ∧
+      readTextGrid .byStart f tier none = .ok (r, a, b) ∧
+      List.Forall₂ (fun y x => y.1 = x.1 ∧ Near o.precision y.2.1 x.2.1 ∧ Near o.precision y.2.2 x.2.2) r t ∧
+      Near o.precision a (minList (t.map (·.2.1))) ∧ Near o.precision b (maxList (t.map (·.2.2))) := by
+  obtain ⟨f, hw, _, hr⟩ := C11_textgrid_roundtrip t o tier hne hsorted hst hen htier
+  refine ⟨f, _, _, _, by rw [writeTextGridInferAt_precision]; exact hw, hw, hr, ?_, fmt_bounds _ _, fmt_bounds _ _⟩
+  rw [List.forall₂_map_left_iff]
+  apply List.forall₂_same.mpr
+  intro x hx
+  obtain ⟨h1, h2, h3, h4, h5⟩ := C11_textgrid t o hpt x hx
+  exact ⟨h1, ⟨h2, h3⟩, ⟨h4, h5⟩⟩
+
+/-- Sub-millisecond segments at precision 5 with `point_tier` unset: an interval tier, ends kept. -/
+example : ∃ f r a b, writeTextGridInferAt 5 [("t", 1/10, 1002/10000)] { precision := 5 } = .ok f ∧
+    writeTextGrid [("t", 1/10, 1002/10000)] { precision := 5 } = .ok f ∧
+    readTextGrid .byStart f (.idx 0) none = .ok (r, a, b) ∧
+    List.Forall₂ (fun y x => y.1 = x.1 ∧ Near 5 y.2.1 x.2.1 ∧ Near 5 y.2.2 x.2.2) r [("t", 1/10, 1002/10000)] ∧
+    Near 5 a (minList ([("t", 1/10, 1002/10000)].map (·.2.1))) ∧
+    Near 5 b (maxList ([("t", 1/10, 1002/10000)].map (·.2.2))) :=
+  C11_textgrid_inferred [("t", 1/10, 1002/10000)] { precision := 5 } (.idx 0) (by simp) (by simp) (by simp) (by simp)
+    (by simp) (.inl rfl)
+
+/-- **C11_textgrid_inference_counterexample**: the theorem depends on the inference being made at the PRINT
+precision. Judged at the default 3 digits while printing 5 (a writer that does not pass `precision` on to the
+zero-length test), the segment `(0.1, 0.1002)` is written as a point and its end reads back as `0.1`: off by
+`2·10⁻⁴ > ½·10⁻⁵`. Judged at a FINER precision it fails as well: at 4 digits while printing 3,
+`(0.00049, 0.00051)` is a point (both print `0.0005`), the end reads back as `0`, off by more than `½·10⁻³`. -/
+theorem C11_textgrid_inference_counterexample :
+    (inferPointAt 3 [("t", 1/10, 1002/10000)] = true ∧ inferPointAt 5 [("t", 1/10, 1002/10000)] = false ∧
+      ∃ f, writeTextGridInferAt 3 [("t", 1/10, 1002/10000)] { precision := 5 } = .ok f ∧
+        readTextGrid .byStart f (.idx 0) none = .ok ([("t", 1/10, 1/10)], 1/10, 1002/10000) ∧
+        ¬ Near 5 (1/10) (1002/10000)) ∧
+    (inferPointAt 4 [("t", 49/100000, 51/100000)] = true ∧ inferPointAt 3 [("t", 49/100000, 51/100000)] = false ∧
+      ∃ f, writeTextGridInferAt 4 [("t", 49/100000, 51/100000)] { precision := 3 } = .ok f ∧
+        readTextGrid .byStart f (.idx 0) none = .ok ([("t", 0, 0)], 0, 1/1000) ∧
+        ¬ Near 3 0 (51/100000)) := by
+  refine ⟨⟨by decide +kernel, by decide +kernel, ?_⟩, ⟨by decide +kernel, by decide +kernel, ?_⟩⟩
+  · obtain ⟨f, hw, _, hr⟩ := C11_textgrid_roundtrip [("t", 1/10, 1002/10000)]
+      { precision := 5, pointTier := some true } (.idx 0) (by simp) (by simp) (by simp) (by simp) (.inl rfl)
+    refine ⟨f, ?_, ?_, by unfold Near; norm_num⟩
+    · have h3 : inferPointAt 3 [("t", 1/10, 1002/10000)] = true := by decide +kernel
+      rw [← hw]; simp only [writeTextGridInferAt, Option.getD_none, h3]
+    · rw [hr]; decide +kernel
+  · obtain ⟨f, hw, _, hr⟩ := C11_textgrid_roundtrip [("t", 49/100000, 51/100000)]
+      { precision := 3, pointTier := some true } (.idx 0) (by simp) (by simp) (by simp) (by simp) (.inl rfl)
+    refine ⟨f, ?_, ?_, by unfold Near; norm_num⟩
+    · have h4 : inferPointAt 4 [("t", 49/100000, 51/100000)] = true := by decide +kernel
+      rw [← hw]; simp only [writeTextGridInferAt, Option.getD_none, h4]
+    · rw [hr]; decide +kernel
 
 /-- The hypotheses of the round trip are satisfiable (times either side of 10 s, precision 2). -/
 example : ∃ f, writeTextGrid [("a", 9, 10), ("b", 10, 23/2)] { precision := 2 } = .ok f ∧
